@@ -743,9 +743,12 @@ fn kf_c06_xlsb_short_records() {
 #[test]
 fn kf_c06_xlsb_formula_tokens_truncated() {
     let src = fixture("date.xlsb");
-    for ptg in 0u8..=0x7F {
-        for (extra, fill) in (0usize..=16).flat_map(|e| [(e, 0xFFu8), (e, 0x00u8)]) {
-            let mut rgce = vec![ptg];
+    // every token byte, then every PtgAttr sub-kind (0x19 xx), each followed by 0..16 payload bytes
+    let heads: Vec<Vec<u8>> = (0u8..=0x7F).map(|p| vec![p]).chain([0x01u8, 0x02, 0x04, 0x08, 0x10, 0x20, 0x40, 0x80].into_iter().map(|s| vec![0x19, s])).collect();
+    for head in heads {
+        let ptg = head[0] as u16 * 256 + *head.last().unwrap() as u16;
+        for (extra, fill) in (0usize..=16).flat_map(|e| [(e, 0xFFu8), (e, 0x00u8), (e, 0x05u8)]) {
+            let mut rgce = head.clone();
             rgce.extend(std::iter::repeat(fill).take(extra));
             let mut p = Vec::new();
             p.extend_from_slice(&0u32.to_le_bytes());
@@ -764,7 +767,7 @@ fn kf_c06_xlsb_formula_tokens_truncated() {
             part.extend_from_slice(&p);
             part.extend_from_slice(&[0x92, 0x01, 0]);
             let bytes = rezip(&src, &[("xl/worksheets/sheet1.bin", part)]);
-            no_panic(&format!("BrtFmlaNum with token 0x{ptg:02X} followed by {extra} byte(s) 0x{fill:02X}"), || exercise(bytes, "xlsb"));
+            no_panic(&format!("BrtFmlaNum with token 0x{ptg:04X} followed by {extra} byte(s) 0x{fill:02X}"), || exercise(bytes, "xlsb"));
         }
     }
     finish();
